@@ -28,7 +28,7 @@ from contracts.c05 import (MAXP, MAXP_FORK, max_using, drift_using, FitEnv, fitt
                            _rhs_lemmas)
 
 P = "C06"
-ALLV = list(kc.VARIANTS)
+ALLV = [v for v in kc.VARIANTS if v != "ordinary+mean"]
 
 
 def window_require(ctx, d, label):
